@@ -37,7 +37,15 @@ package seccomp
 //@ macro riK(p) = forall(x, 0, len(p.instructions), isRet(p.instructions[x]) || istype(p.instructions[x], bpf.LoadAbsolute) || istype(p.instructions[x], bpf.JumpIf), trig(p.instructions[x]))
 //@ macro riJ(p) = forall(k, 0, len(p.jumps), 0 <= p.jumps[k].index && p.jumps[k].index < len(p.instructions) && istype(p.instructions[p.jumps[k].index], bpf.JumpIf)) && forall(x, 0, len(p.instructions), istype(p.instructions[x], bpf.JumpIf) ==> unbox(p.instructions[x], bpf.JumpIf).SkipTrue == 0 && unbox(p.instructions[x], bpf.JumpIf).SkipFalse == 0, trig(p.instructions[x])) && forall(a, 0, len(p.jumps), forall(b, a + 1, len(p.jumps), p.jumps[a].index < p.jumps[b].index)) && jumpsComplete(p.instructions, p.jumps)
 //@ macro riL(p) = nonnil(p.labels) && forallk(l, p.labels, len(p.labels[l]) >= 0 && forall(m, 0, len(p.labels[l]), 0 <= p.labels[l][m] && p.labels[l][m] <= len(p.instructions)))
-//@ macro ri(p) = riK(p) && riJ(p) && riL(p)
+// labels that have not been handed out yet have no position
+//@ macro riU(p) = forallk(l, p.labels, l > p.nextLabel ==> !has(p.labels, l))
+//@ macro ri(p) = riK(p) && riJ(p) && riL(p) && riU(p)
+// the same invariant as one named predicate of the spec library (spec/45_asm.smt2)
+//@ lemma riLink(p0 Program)
+//@   ensures @fwd ri(p0) ==> riS(p0)
+//@   ensures @bwd riS(p0) ==> ri(p0)
+// the ghost interpreter state describes the outcome of the label-level program built so far (spec/47_prefix.smt2)
+//@ macro phi(p) = relG(p.G, p.labels, runP3(p.instructions, p.jumps, p.labels, 0, A0))
 
 // jump k of the label-level program p0 is resolved in the instruction list R: same test, and each branch continues
 // at the (moved) position of its label, or at a bridge to it
@@ -47,6 +55,8 @@ package seccomp
 //@   ensures @empty len(result.instructions) == 0 && len(result.jumps) == 0 && result.nextLabel == 1
 //@   ensures @labels nonnil(result.labels) && card(result.labels) == 0
 //@   ensures @ri {C06} ri(result)
+//@   use riLink(result) at exit
+//@   ensures @riS {C06} riS(result)
 
 //@ func (p *Program) NewLabel() Label   properties C01 C02 C03 C06
 //@   deterministic C13
@@ -58,6 +68,11 @@ package seccomp
 //@   ensures @fresh fresh(old(p)) ==> fresh(p) && !g_taken(p.G)[result]
 //@   ensures @ok {C05} p.R == old(p.R)
 //@   ensures @ri {C06} ri(old(p)) ==> ri(p)
+//@   ensures @phi {C06} phi(old(*p)) ==> phi(*p)
+//@   use riLink(old(*p)) at exit
+//@   use riLink(*p) at exit
+//@   ensures @riS {C06} riS(old(*p)) ==> riS(*p)
+//@   ensures @unplaced {C06} riS(old(*p)) ==> !has(p.labels, result)
 
 //@ func (p *Program) currentIndex() Index   properties C06
 //@   requires p != nil
@@ -75,6 +90,11 @@ package seccomp
 //@   ensures @fresh fresh(old(p)) && trueLabel <= old(p.nextLabel) && falseLabel <= old(p.nextLabel) ==> fresh(p)
 //@   ensures @ok {C05} p.R == old(p.R) && (ok(old(p)) && 0 <= cond && cond <= 7 ==> ok(p))
 //@   ensures @ri {C06} ri(old(p)) ==> ri(p)
+//@   use appendJif(old(*p), *p, 0, A0) when riS(old(*p)) at exit
+//@   ensures @phi {C06} riS(old(*p)) && phi(old(*p)) ==> phi(*p)
+//@   use riLink(old(*p)) at exit
+//@   use riLink(*p) at exit
+//@   ensures @riS {C06} riS(old(*p)) ==> riS(*p)
 
 //@ func (p *Program) SetLabel(label Label)   properties C01 C02 C03 C06
 //@   deterministic C13
@@ -86,7 +106,13 @@ package seccomp
 //@   ensures @frame p.nextLabel == old(p.nextLabel) && p.instructions == old(p.instructions) && p.jumps == old(p.jumps) && nonnil(p.labels)
 //@   ensures @fresh fresh(old(p)) ==> fresh(p)
 //@   ensures @ok {C05} p.R == old(p.R)
-//@   ensures @ri {C06} ri(old(p)) ==> ri(p)
+//@   ensures @ri {C06} ri(old(p)) && label <= old(p.nextLabel) ==> ri(p)
+//@   use placeLabel(old(*p), *p, label, 0, A0) when riS(old(*p)) && !has(old(p.labels), label) at exit
+//@   ensures @phi {C06} riS(old(*p)) && phi(old(*p)) && !has(old(p.labels), label) ==> phi(*p)
+//@   ensures @has {C06} forallk(l, p.labels, has(p.labels, l) == (has(old(p.labels), l) || l == label))
+//@   use riLink(old(*p)) at exit
+//@   use riLink(*p) at exit
+//@   ensures @riS {C06} riS(old(*p)) && label <= old(p.nextLabel) ==> riS(*p)
 
 //@ func (p *Program) JmpIfTrue(cond bpf.JumpTest, val uint32, trueLabel Label)   properties C01 C02 C03 C05 C06
 //@   deterministic C13
@@ -99,6 +125,11 @@ package seccomp
 //@   ensures @fresh fresh(old(p)) && trueLabel <= old(p.nextLabel) ==> fresh(p) && !g_taken(old(p.G))[old(p.nextLabel) + 1]
 //@   ensures @ok {C05} p.R == old(p.R) && (ok(old(p)) && 0 <= cond && cond <= 7 ==> ok(p))
 //@   ensures @ri {C06} ri(old(p)) ==> ri(p)
+//@   ensures @phi {C06} riS(old(*p)) && phi(old(*p)) ==> phi(*p)
+//@   ensures @has {C06} forallk(l, p.labels, has(p.labels, l) == (has(old(p.labels), l) || l == old(p.nextLabel) + 1))
+//@   use riLink(old(*p)) at exit
+//@   use riLink(*p) at exit
+//@   ensures @riS {C06} riS(old(*p)) ==> riS(*p)
 
 //@ func (p *Program) Ret(action Action)   properties C01 C05 C06
 //@   deterministic C13
@@ -113,6 +144,11 @@ package seccomp
 //@   ghost p.R = addRet(p.R, unbox(p.instructions[len(p.instructions)-1], bpf.RetConstant).Val) at exit
 //@   ensures @ok {C05} p.R == addRet(old(p.R), enc(action)) && (ok(old(p)) ==> ok(p))
 //@   ensures @ri {C06} ri(old(p)) ==> ri(p)
+//@   use appendPlain(old(*p), *p, 0, A0) when riS(old(*p)) at exit
+//@   ensures @phi {C06} riS(old(*p)) && phi(old(*p)) ==> phi(*p)
+//@   use riLink(old(*p)) at exit
+//@   use riLink(*p) at exit
+//@   ensures @riS {C06} riS(old(*p)) ==> riS(*p)
 
 //@ func (p *Program) LdHi(arg uint32)   properties C02 C05
 //@   deterministic C13
@@ -127,6 +163,11 @@ package seccomp
 //@   ensures @fresh fresh(old(p)) ==> fresh(p)
 //@   ensures @ok {C05} p.R == old(p.R) && (ok(old(p)) ==> ok(p))
 //@   ensures @ri {C06} ri(old(p)) ==> ri(p)
+//@   use appendPlain(old(*p), *p, 0, A0) when riS(old(*p)) at exit
+//@   ensures @phi {C06} riS(old(*p)) && phi(old(*p)) ==> phi(*p)
+//@   use riLink(old(*p)) at exit
+//@   use riLink(*p) at exit
+//@   ensures @riS {C06} riS(old(*p)) ==> riS(*p)
 
 //@ func (p *Program) ldSyscallNum()   properties C03 C05
 //@   deterministic C13
@@ -140,6 +181,11 @@ package seccomp
 //@   ensures @fresh fresh(old(p)) ==> fresh(p)
 //@   ensures @ok {C05} p.R == old(p.R) && (ok(old(p)) ==> ok(p))
 //@   ensures @ri {C06} ri(old(p)) ==> ri(p)
+//@   use appendPlain(old(*p), *p, 0, A0) when riS(old(*p)) at exit
+//@   ensures @phi {C06} riS(old(*p)) && phi(old(*p)) ==> phi(*p)
+//@   use riLink(old(*p)) at exit
+//@   use riLink(*p) at exit
+//@   ensures @riS {C06} riS(old(*p)) ==> riS(*p)
 
 //@ func (p *Program) LdLo(arg uint32)   properties C02 C05
 //@   deterministic C13
@@ -154,6 +200,11 @@ package seccomp
 //@   ensures @fresh fresh(old(p)) ==> fresh(p)
 //@   ensures @ok {C05} p.R == old(p.R) && (ok(old(p)) ==> ok(p))
 //@   ensures @ri {C06} ri(old(p)) ==> ri(p)
+//@   use appendPlain(old(*p), *p, 0, A0) when riS(old(*p)) at exit
+//@   ensures @phi {C06} riS(old(*p)) && phi(old(*p)) ==> phi(*p)
+//@   use riLink(old(*p)) at exit
+//@   use riLink(*p) at exit
+//@   ensures @riS {C06} riS(old(*p)) ==> riS(*p)
 
 // nativeEndian is assigned once by init() (not verified: unsafe); it is one of the two orders.
 //@ global nativeEndian immutable
@@ -201,6 +252,7 @@ package seccomp
 //@   requires fresh(p)
 //@   requires @args_valid argsValid(s)
 //@   modifies p
+//@   opaque riS
 //@   let G0 = p.G
 //@   let N0 = p.nextLabel
 //@   let hdr = ev_nr(ev) == s.Num
@@ -214,7 +266,9 @@ package seccomp
 //@   ensures @done g_done(p.G) == g_done(G0) && g_rval(p.G) == g_rval(G0)
 //@   ensures @fresh fresh(p) && p.nextLabel >= N0 && nonnil(p.labels)
 //@   ensures @ok {C05} p.R == old(p.R) && (ok(old(p)) ==> ok(p))
-//@   ensures @ri {C06} ri(old(p)) ==> ri(p)
+//@   ensures @ri {C06} riS(old(*p)) ==> riS(*p)
+//@   let P0 = riS(*p) && phi(*p) && !has(p.labels, action)
+//@   ensures @phi {C06} P0 ==> phi(*p) && !has(p.labels, action)
 //@   let R0 = p.R
 //@   let ok0 = ok(p)
 //@   use anyListZero(s) at before loop 1
@@ -227,7 +281,8 @@ package seccomp
 //@   loop 1 binder k
 //@     invariant @struct p != nil && nonnil(p.labels) && p.nextLabel >= N0 + 2 && nextSyscall == N0 + 1
 //@     invariant @ok {C05} p.R == R0 && (ok0 ==> ok(p))
-//@     invariant @ri {C06} ri(old(p)) ==> ri(p)
+//@     invariant @ri {C06} riS(old(*p)) ==> riS(*p)
+//@     invariant @phi {C06} P0 ==> phi(*p) && !has(p.labels, action) && !has(p.labels, nextSyscall)
 //@     invariant @fresh fresh(p)
 //@     invariant @done g_done(p.G) == g_done(G0) && g_rval(p.G) == g_rval(G0)
 //@     invariant @sem {C03} pre && sem ==> (g_taken(p.G)[action] == (g_taken(G0)[action] || (hdr && anyList(s, k))) && g_taken(p.G)[nextSyscall] == !hdr && g_live(p.G) == (hdr && !anyList(s, k)))
@@ -236,7 +291,8 @@ package seccomp
 //@   loop 2 binder i
 //@     invariant @struct p != nil && nonnil(p.labels) && p.nextLabel >= noMatch && noMatch >= N0 + 3
 //@     invariant @ok {C05} p.R == R0 && (ok0 ==> ok(p))
-//@     invariant @ri {C06} ri(old(p)) ==> ri(p)
+//@     invariant @ri {C06} riS(old(*p)) ==> riS(*p)
+//@     invariant @phi {C06} P0 ==> phi(*p) && !has(p.labels, action) && !has(p.labels, nextSyscall) && !has(p.labels, noMatch)
 //@     invariant @fresh fresh(p)
 //@     invariant @done g_done(p.G) == g_done(G0) && g_rval(p.G) == g_rval(G0)
 //@     invariant @live {C02 C03} pre && sem ==> g_live(p.G) == (hdr && !anyList(s, k) && allHoldUpTo(conditions, i) && i < len(conditions))
@@ -604,16 +660,8 @@ package seccomp
 //@   use placeLabel(p, q, l, dst(p, x, A), A) when atJ(p, x) && jlab(p, x, A) != l && dst(p, x, A) > x
 //@   ensures runP(q, x, A) == extMark(runP(p, x, A), l)
 
-// MT-fwd (meta-theory, DESIGN.md 3.3): the single-pass interpretation G that the builder primitives maintain equals the
-// label-level program run directly on the structure (S-lab). Trusted: a statement about label-level programs only
-// (no resolution, no bridges); paper proof by induction on the emission history. Hypotheses that are not checked:
-// p0.G is the interpretation of exactly this structure (the primitives' ghost statements read back what the code
-// appended), every label is set at most once and only jumped to from before it (the property's own domain:
-// "forward jumps only, each label placed once"; a backward reference makes Program.Assemble fail).
-//@ lemma MTfwd(p0 Program)
-//@   trusted
-//@   ensures ri(p0) ==> outG(p0.G) == runL(p0, 0, A0)
-
+// MT-fwd is no longer an axiom: the builder primitives maintain phi (the ghost interpreter state describes the outcome of
+// the prefix semantics), and runLP turns the prefix semantics of the finished program into S-lab.
 // Facts about strictly increasing position maps; in Program.Assemble posMono itself is opaque and these are used at
 // explicit pivots (the definition quantifies over pairs, which is quadratic for the solver).
 //@ lemma monoId()
@@ -627,14 +675,15 @@ package seccomp
 // p.G must have been started as Ginit(A0).
 //@ func (p *Program) Assemble() ([]bpf.Instruction, error)   properties C06
 //@   requires p != nil
-//@   requires @ri ri(p)
+//@   requires @ri riS(*p)
+//@   use riLink(*p) at entry
 //@   modifies p, ghost.apos, ghost.mt, ghost.mf, ghost.wm
 //@   ensures @err result1 != nil ==> len(result0) == 0
 //@   ensures @lab result1 == nil ==> run(result0, 0, A0) == runL(old(*p), 0, A0)
-//@   ensures @sem result1 == nil ==> run(result0, 0, A0) == outG(old(p.G))
+//@   ensures @sem result1 == nil && phi(old(*p)) ==> run(result0, 0, A0) == outG(old(p.G))
 //@   ensures @closed result1 == nil && ok(old(p)) ==> closed(result0) && retsInSet(result0, old(p.R))
 //@   ensures @len result1 == nil ==> len(result0) >= len(old(p.instructions))
-//@   opaque posMono jumpsComplete runL3
+//@   opaque posMono jumpsComplete runL3 runP3
 //@   opaque closed retsInSet except closed
 //@   ghost ghost.apos = idArr at entry
 //@   use monoId() at entry
@@ -680,7 +729,7 @@ package seccomp
 //@   ghost ghost.wm = ghost.mt[i] at before call Program.insertBridge#3
 //@   ghost ghost.wm = ghost.mf[i] at before call Program.insertBridge#4
 //@   use simInd(old(*p), p.instructions, 0, A0) at after loop 1
-//@   use MTfwd(old(*p)) at after loop 1
+//@   use runLP(old(*p), 0, A0) at after loop 1
 
 // MT-3 (meta-theory, DESIGN.md 3.3): a closed block embedded in a program behaves like the block run on its own,
 // then continues behind it. Proved by induction on the execution (not by the SMT solver): trusted.
@@ -740,7 +789,7 @@ package seccomp
 //@   loop 1 binder k
 //@     invariant @struct nonnil(p.labels) && action == 2 && p.nextLabel >= 2 && fresh(p) && !g_done(p.G)
 //@     invariant @ok {C05} p.R == emptyRets && ok(p)
-//@     invariant @ri {C06} ri(p)
+//@     invariant @ri {C06} riS(p) && phi(p) && !has(p.labels, action)
 //@     invariant @sem {C01 C03} A0 == ev_nr(ev) && entriesListsNonEmpty(syscalls) ==> g_live(p.G) == !anyEntry(syscalls, k) && (g_live(p.G) ==> g_A(p.G) == ev_nr(ev)) && g_taken(p.G)[action] == anyEntry(syscalls, k)
 
 //@ lemma groupValidLink(g *SyscallGroup)
